@@ -269,24 +269,47 @@ def _selftest(files, viol, workdir):
        1 unchanged                                              -> must be accepted
        2 one find.le result replaced by the find.lt result      -> must fail exactly C14.find.le
        3 one RANK result raised by one                          -> must fail exactly C14.rank
-  (if the tree is so broken that no suitable accepted case exists, a synthetic record is used)."""
-  failing = {json.dumps(v["case"]["inp"], sort_keys=True) for v in viol}
+  (if the tree is so broken that no suitable record was accepted, a rejected record corrected with
+  the values TLC reported as wanted is used)."""
+  def spots(c):
+    ob = c["out"][0]
+    return [(fi, j) for fi, col in enumerate(ob["f"]) for j, r in enumerate(col) if r[0] != r[1] and min(r) >= 0]
+
+  def usable(c):
+    return not c["exc"] and c["inp"]["set"] == "std" and not c["inp"]["steps"] and len(c["out"]) == 1 and \
+      len(c["out"][0]["t"]) >= 2
+
   base = None
   for f in files:
-    for c in json.load(open(f)):
-      if c["exc"] or c["inp"]["set"] != "std" or c["inp"]["steps"] or len(c["out"]) != 1:
-        continue
-      ob = c["out"][0]
-      if json.dumps(c["inp"], sort_keys=True) in failing or len(ob["t"]) < 2:
-        continue
-      spot = [(fi, j) for fi, col in enumerate(ob["f"]) for j, r in enumerate(col) if r[0] != r[1] and min(r) >= 0]
-      if spot and all(min(r) >= 0 for col in ob["p"] for r in col):
-        base = (c, spot[0])
+    rejected = {b["i"] for b in json.load(open(f + ".verdict.json"))}
+    for k, c in enumerate(json.load(open(f))):
+      if usable(c) and (k + 1) not in rejected and spots(c) and \
+         all(min(r) >= 0 for col in c["out"][0]["p"] for r in col):
+        base = (c, spots(c)[0])
         break
     if base:
       break
   if base is None:
-    raise tlc.MachineryError("self-test: no recorded table state was accepted by %s (nothing to corrupt)" % TRACE)
+    # a tree so broken that no suitable record was accepted: take a rejected record and put in the
+    # values TLC itself reported as wanted (nothing is computed here); copy 1 shows TLC accepts it
+    for f in files:
+      cases = json.load(open(f))
+      for b in json.load(open(f + ".verdict.json")):
+        c = cases[b["i"] - 1]
+        if not usable(c) or "C14.undecidable" in b["c"] or "C14.raised" in b["c"]:
+          continue
+        for d in b["d"][0]:
+          if d["k"].startswith("C14.find."):
+            c["out"][0]["f"][d["o"] - 1][d["r"] - 1][d["op"] - 1] = d["want"]
+          else:
+            c["out"][0]["p"][d["o"] - 1][d["r"] - 1][d["op"] - 1] = d["want"]
+        if spots(c):
+          base = (c, spots(c)[0])
+          break
+      if base:
+        break
+  if base is None:
+    raise tlc.MachineryError("self-test: no recorded table state is usable for %s" % TRACE)
   c, (fi, j) = base
   good = json.loads(json.dumps(c))
   bad_find = json.loads(json.dumps(c))
@@ -331,7 +354,7 @@ def run(ctx):
       seen.add(k)
       inputs.append(e)
   ctx.log("TLC enumerated %d histories (%d states) in %.1fs" % (len(inputs), model["distinct"], model["wall"]))
-  rnd = random_inputs(ctx.seed, 400 if ctx.quick else 6000)
+  rnd = random_inputs(ctx.seed, 250 if ctx.quick else 2500)
   todo = inputs + rnd
   random.Random(14).shuffle(todo)          # spread the long histories evenly
   files, formulas = _run_worker(todo, ctx.workdir, obs, nshards=16)
@@ -341,7 +364,9 @@ def run(ctx):
     raise tlc.MachineryError("recorded %d cases for %d inputs" % (n, len(todo)))
   _selftest(files, viol, ctx.workdir)
   viol, classes = _cap(viol)
-  viol = _confirm(viol, ctx.workdir, obs)
+  # violations of a known class are not run again (their matcher names the failing shape)
+  known = [v for v in viol if any(fn(v) for fn in MATCHERS.values())]
+  viol = known + _confirm([v for v in viol if not any(fn(v) for fn in MATCHERS.values())], ctx.workdir, obs)
   nontrivial = 0
   raised = {}
   for f in files:
